@@ -12,8 +12,8 @@ if cmp -s "$M/$F" "$M/$F.orig"; then echo "MUTANT: sed expression changed nothin
 diff "$M/$F.orig" "$M/$F" | head -6
 rm "$M/$F.orig"
 ( cd "$M" && make -s >/dev/null 2>&1 ) || { echo "MUTANT: does not build"; exit 3; }
-OKS=$(cd "$M" && sh test.sh 2>/dev/null | grep -c OK)
+OKS=$(cd "$M" && timeout 120 sh test.sh 2>/dev/null | grep -c OK)
 echo "MUTANT: test.sh OK count = $OKS"
 mkdir -p "$M/ev" "$M/rp"
-VERIF_REPO=$M VERIF_EVIDENCE_OUT=$M/ev VERIF_REPLAY_OUT=$M/rp /verif/check "$ID" --tier "$TIER" 2>&1 | grep -E "^(VIOLATION|KNOWN|C[0-9]+ tier|HARNESS)" | sort | uniq -c | head -8
+VERIF_REPO=$M VERIF_EVIDENCE_OUT=$M/ev VERIF_REPLAY_OUT=$M/rp timeout 900 /verif/check "$ID" --tier "$TIER" 2>&1 | grep -E "^(VIOLATION|KNOWN|C[0-9]+ tier|HARNESS)" | sort | uniq -c | head -8
 echo "exit=$?"
